@@ -19,6 +19,8 @@ def driver_line(op):
     k = op["op"]
     if k in ("seal", "raw", "full"):
         return {"op": k, "n": op["n"]}
+    if k == "failseal":
+        return None   # not sent to the model (which nodes a failing seal leaves sealed is not modelled)
     if k == "set":
         return {"op": "set", "n": op["n"], "name": op["pyname"].encode().hex(), "v": op["v"]}
     if k == "setmeta":
@@ -53,8 +55,13 @@ def main():
                             index = {id(o): i for i, o in enumerate(objs)}
                             val = cfgbuild.real_val(mod, op["spec"], {i: o for i, o in enumerate(objs)})
                             op["v"] = cfgbuild.model_val(val, index)
-                        rec["lines"].append(driver_line(op))
-                        rec["impl"].append(cfgbuild.run_op(objs, mod, op))
+                        line = driver_line(op)
+                        res = cfgbuild.run_op(objs, mod, op)
+                        if line is None:
+                            rec.setdefault("extra", []).append({"op": op, "out": res})
+                        else:
+                            rec["lines"].append(line)
+                            rec["impl"].append(res)
             except Exception as e:
                 rec["error"] = f"{type(e).__name__}: {e}"
                 rec["trace"] = traceback.format_exc()[-1500:]
